@@ -61,7 +61,8 @@ class Values:
         elif k == 'tuple':
             v = tuple(self.mk(s) for s in x)
         elif k == 'dict':
-            v = {str(i): self.mk(s) for i, s in enumerate(x)}
+            keys = spec.get('keys') or [str(i) for i in range(len(x))]
+            v = {str(keys[i % len(keys)]) if keys else str(i): self.mk(s) for i, s in enumerate(x)}
         elif k == 'opaque':
             v = Opaque(x)
         else:
@@ -125,8 +126,14 @@ def gen_value(rng, domain, depth=0):
         if depth >= 2:
             return {'k': 'int', 'x': rng.randint(0, 3)}
         inner = 'mixed' if domain == 'mixed' and rng.random() < 0.3 else 'numeric'
-        return {'k': k, 'x': [gen_value(rng, inner if depth else rng.choice(['numeric', 'containers']), depth + 1)
+        spec = {'k': k, 'x': [gen_value(rng, inner if depth else rng.choice(['numeric', 'containers']), depth + 1)
                               for _ in range(rng.randint(0, 2))]}
+        if k == 'dict':
+            # same-sized dictionaries must be able to differ in their keys only
+            spec['keys'] = rng.sample(['a', 'b', 'c'], len(spec['x']))
+            if spec['x'] and rng.random() < 0.5:
+                spec['x'] = [{'k': 'int', 'x': 1} for _ in spec['x']]
+        return spec
     if k in ('int', 'date', 'datetime'):
         return {'k': k, 'x': rng.randint(0, 3)}
     if k == 'bool':
